@@ -364,9 +364,11 @@ func propC12(w *World, r *Report, tier string) {
 		"compared — as Boolean functions — with the TS 24.008 / TS 24.501 9.11.3.4 layout (MCC2|MCC1, MNC3|MCC3, MNC2|MNC1, filler 1111); the PLMN text decoder is " +
 		"run on the specified octets and must render MCC1 MCC2 MCC3 MNC1 MNC2 [MNC3]. AMF identifier: AmfIdToNasWithError on six symbolic hex characters must yield " +
 		"region(8) | set(10) | pointer(6) and AmfIdToModels must be its inverse on all 24 bits. GUTI: GutiToNasWithError places PLMN, AMF id and TMSI at octets 1..3, 4..6, 7..10 " +
-		"and GutiToStringWithError reads the same octets. Error discipline: in every *WithError converter each error returned by strconv/hex and each length test leads to a non-nil error."
+		"and GutiToStringWithError reads the same octets; text(wire) converted back is the same 11 octets for every well-formed 5G-GUTI. Identity texts (props_ident_text.go): the complete SUCI text " +
+		"(2-/3-digit MNC x 1..4 routing indicator digits x null scheme with even / odd MSIN, non-null schemes), the IMEI / IMEISV texts (odd / even digit count, 1, 2, 8, 9 octets), the 5G-TMSI / 5G-S-TMSI / AMF id hexadecimal texts " +
+		"and the numbers behind the decimal AMF set ID / pointer texts are compared character by character with the text TS 23.003 / TS 24.501 9.11.3.4 define for the symbolic octets. Error discipline: in every *WithError converter each error returned by strconv/hex and each length test leads to a non-nil error."
 	r.Assumptions = []string{"MCC has three digits, MNC two or three; digit characters are '0'..'9'; hex text is lower case",
-		"not decided: text formatting (prefixes, separators), routing indicator / MSIN filler trimming, IMEI/IMEISV digit assembly, text round trips"}
+		"identity texts are decided at the listed element lengths (loops over the identity digits are unrolled there), not for every length; NAI-format SUCI text and the decimal rendering inside strconv are not decided"}
 	r.Trusted = []string{"go/ssa", "E2 interpreter and ROBDD equivalence", "models of strconv.Atoi (one digit) and encoding/hex in checker/bitflow_text.go"}
 	checkPlmnEncoders(w, r, map[string]bool{"nasConvert.PlmnIDToNas": true, "nasConvert.GutiToNasWithError": true})
 	checkPlmnDecoders(w, r)
@@ -376,7 +378,16 @@ func propC12(w *World, r *Report, tier string) {
 	checkConvertErrors(w, r)
 	checkGutiRejects(w, r)
 	checkSuciSchemeOutput(w, r)
+	checkPeiText(w, r)
+	checkTmsiText(w, r)
+	checkSuciText(w, r)
+	checkGutiRoundTrip(w, r)
 	r.Expect("lay.plmn", 4)
+	r.Expect("text.pei", 14)
+	r.Expect("text.suci", 24)
+	r.Expect("text.tmsi", 5)
+	r.Expect("text.amf-decimal", 4)
+	r.Expect("text.guti-roundtrip", 2)
 }
 
 // checkAmfID: region(8) | set(10) | pointer(6)
